@@ -535,7 +535,12 @@ class HttpParser(abc.ABC, Generic[_MsgT]):
                     # bytes get appended to this line and leak in the error.
                     if b"\n" in self._tail:
                         raise BadHttpMessage("Bad line ending, expected CRLF")
-                    if len(self._tail) > max_line_length:
+                    # A trailing CR may be the first half of the terminator
+                    # and is not part of the line.
+                    tail_len = len(self._tail)
+                    if self._tail.endswith(b"\r"):
+                        tail_len -= 1
+                    if tail_len > max_line_length:
                         raise LineTooLong(self._tail[:100] + b"...", max_line_length)
                     data = EMPTY
                     break
